@@ -1,3 +1,4 @@
 import RaftVerif.Core.Catchup
 import RaftVerif.Proofs.Replicate
+import RaftVerif.Proofs.Leader
 /-! # C12 — convergence (catch-up half).  Registered: `RP.catchup_terminates`. -/
